@@ -1,0 +1,64 @@
+//go:build verif
+
+package qr
+
+import "github.com/boombuler/barcode/utils"
+
+// Hooks for the verification harness in /verif (build tag `verif` only): they expose internal stages unchanged.
+
+// VerifFindSmallestVersion returns the version findSmallestVersionInfo picks (0 = none).
+func VerifFindSmallestVersion(ecl ErrorCorrectionLevel, mode byte, dataBits int) int {
+	vi := findSmallestVersionInfo(ecl, encodingMode(mode), dataBits)
+	if vi == nil {
+		return 0
+	}
+	return int(vi.Version)
+}
+
+// VerifEncodeStream runs the encoder function of the encoding (bit stream incl. terminator and pads) and returns the
+// stream and the version.
+func VerifEncodeStream(content string, ecl ErrorCorrectionLevel, e Encoding) (*utils.BitList, int, error) {
+	fn := e.getEncoder()
+	if fn == nil {
+		return nil, 0, nil
+	}
+	bl, vi, err := fn(content, ecl)
+	if err != nil || bl == nil || vi == nil {
+		return nil, 0, err
+	}
+	return bl, int(vi.Version), nil
+}
+
+// VerifAlignmentPlacements returns alignmentPatternPlacements of the version at level L.
+func VerifAlignmentPlacements(version int) []int {
+	for _, vi := range versionInfos {
+		if int(vi.Version) == version {
+			return vi.alignmentPatternPlacements()
+		}
+	}
+	return nil
+}
+
+// VerifBlocks splits data into the blocks of (version, level), adds the check bytes and interleaves.
+func VerifBlocks(data []byte, version int, ecl ErrorCorrectionLevel) []byte {
+	for _, vi := range versionInfos {
+		if int(vi.Version) == version && vi.Level == ecl {
+			ch := make(chan byte, len(data))
+			for _, b := range data {
+				ch <- b
+			}
+			close(ch)
+			return splitToBlocks(ch, vi).interleave(vi)
+		}
+	}
+	return nil
+}
+
+// VerifPenalty builds a dim x dim symbol from the row-major cells and returns the four rule values.
+func VerifPenalty(dim int, cells []bool) [4]uint {
+	c := newBarcode(dim)
+	for i, v := range cells {
+		c.Set(i%dim, i/dim, v)
+	}
+	return [4]uint{c.calcPenaltyRule1(), c.calcPenaltyRule2(), c.calcPenaltyRule3(), c.calcPenaltyRule4()}
+}
